@@ -12,9 +12,11 @@ own constraint objects is modelled in `PGA/Model/Match.lean`.
 `readFragment : Ast → Except ReadErr Query` follows the reader on every tree the parser can
 produce (the grammar of `Grammar.py`).  On trees the parser cannot produce (a node of the wrong
 name or arity where the Python has an `assert`) it answers `ReadErr.shape`.  Error outcomes:
-`reader` = `RINGReaderError`, `notImplemented` = `NotImplementedError`, `internal` = `TypeError` (FM2).
+`reader` = `RINGReaderError`, `notImplemented` = `NotImplementedError`.  There is no outcome for a
+non-RING exception on a tree the parser can produce: the only one the reader had (`TypeError` from the
+dead duplicate-label guard, finding FM2) was repaired in the repository (guard removed).
 A label declared twice is accepted and later references go to its first declaration, as in the code
-(shipped scheme files rely on it).
+(shipped scheme files rely on it); the label text plays no part in reading beyond equality of labels.
 -/
 namespace PGA
 
@@ -134,8 +136,6 @@ inductive ReadErr where
   | notImplemented
   /-- a tree the parser cannot produce (Python: failed `assert`, `IndexError`, …) -/
   | shape
-  /-- an exception that is not a RING error on a tree the parser *can* produce (`TypeError`) -/
-  | internal
   deriving DecidableEq, Repr, Inhabited
 
 /-! ## Typed shape of a `Fragment` tree -/
@@ -447,9 +447,8 @@ def hasBond (st : St) (i j : Nat) : Bool :=
 def step (st : St) : RawItem → Except ReadErr St
   | .bonded ty l b to ch => do
     let t ← atomType ty
-    -- the duplicate-label guard tests the token name `'AtomLabel'` instead of the label: duplicates pass, and
-    -- once an atom is *called* `AtomLabel` the guard fires and building its message raises `TypeError` (FM2)
-    if st.names.contains "AtomLabel" then throw .internal
+    -- no duplicate-label guard (the dead one that compared the token name was removed, FM2): a label may be
+    -- declared again, references resolve to the first declaration (`atom_names.index`)
     let idx := st.atoms.length
     let names := st.names ++ [l]
     let j ← lookup names to
